@@ -60,13 +60,15 @@ func spawn() *wproc {
 	if err != nil {
 		ev.HarnessError("pipe: %v", err)
 	}
-	ep, err := cmd.StderrPipe()
+	ep, epw, err := os.Pipe()
 	if err != nil {
 		ev.HarnessError("pipe: %v", err)
 	}
+	cmd.Stderr = epw
 	if err := cmd.Start(); err != nil {
 		ev.HarnessError("cannot start worker: %v", err)
 	}
+	epw.Close()
 	w := &wproc{cmd: cmd, in: in, out: bufio.NewReaderSize(op, 1<<16), errEOF: make(chan struct{})}
 	atomic.StoreInt64(&w.last, time.Now().UnixNano())
 	go func() { // stderr: drop the decoder's own chatter, keep the head of anything else
@@ -81,6 +83,7 @@ func spawn() *wproc {
 				w.errMu.Unlock()
 			}
 			if err != nil {
+				ep.Close()
 				close(w.errEOF)
 				return
 			}
@@ -165,6 +168,10 @@ func (w *wproc) run(j *jobSpec, onBatch func(lo, hi int, r *batchResult)) (d *de
 			case 'D':
 				w.out.ReadString('\n')
 				return nil, 0, done
+			case 'Q': // worker retires after a large allocation; the rest of the job is re-queued
+				w.out.ReadString('\n')
+				w.stop()
+				return nil, -2, done
 			case '\n':
 			default:
 				ev.HarnessError("worker protocol: unexpected byte %q", c)
@@ -173,12 +180,13 @@ func (w *wproc) run(j *jobSpec, onBatch func(lo, hi int, r *batchResult)) (d *de
 	}
 dead:
 	w.in.Close()
-	err := w.cmd.Wait()
-	atomic.StoreInt32(&w.gone, 1)
 	select {
 	case <-w.errEOF:
-	case <-time.After(5 * time.Second):
+	case <-time.After(30 * time.Second):
+		w.cmd.Process.Kill()
 	}
+	err := w.cmd.Wait()
+	atomic.StoreInt32(&w.gone, 1)
 	w.errMu.Lock()
 	d = &death{stderr: string(w.errBuf), hung: atomic.LoadInt32(&w.hung) == 1}
 	w.errMu.Unlock()
@@ -216,9 +224,9 @@ func deathKey(d *death, kind string) (key, what string) {
 		return "hang/no-progress-120s", "the decode did not return within 120 s"
 	case strings.Contains(s, "out of memory") || strings.Contains(s, "cannot allocate memory"):
 		if kind == "block" && strings.Contains(s, "BuildTxListExt") && !strings.Contains(s, "btc.NewTx(") {
-			return "block/txcount-driven-fatal-oom", "the process dies with a fatal (unrecoverable) out-of-memory error under ulimit -v 4 GB: Block.BuildTxListExt does make([]*Tx, TxCount) with the count from the wire (" + head + ")"
+			return "block/txcount-driven-fatal-oom", "the process dies with a fatal (unrecoverable) out-of-memory error under ulimit -v 4 GB: Block.BuildTxListExt does make([]*Tx, TxCount) with the count from the wire (" + normPanic(head) + ")"
 		}
-		return "alloc/count-driven-fatal-oom", "the process dies with a fatal (unrecoverable) out-of-memory error under ulimit -v 4 GB: btc.NewTx passes a count/length prefix from the wire to make() before checking that the data is there (" + head + ")"
+		return "alloc/count-driven-fatal-oom", "the process dies with a fatal (unrecoverable) out-of-memory error under ulimit -v 4 GB: btc.NewTx passes a count/length prefix from the wire to make() before checking that the data is there (" + normPanic(head) + ")"
 	}
 	return "crash/" + normPanic(head), "worker process died: " + d.status + " " + firstLines(s, 3)
 }
@@ -242,8 +250,8 @@ type state struct {
 	viol      map[string]*violAgg
 	deaths    map[string][]deathCase // by key
 	deathN    int
-	unconf    int
 	spawns    int
+	retired   int
 	maxFrac   float64
 	maxFracHx string
 	samples   *ev.Samples
@@ -401,6 +409,17 @@ func (s *state) workerLoop(bases []base, blocks []bbase, wg *sync.WaitGroup) {
 		}
 		fam := famName(j)
 		d, culprit, done := w.run(j, func(lo, hi int, r *batchResult) { s.merge(fam, r) })
+		if d == nil && culprit == -2 {
+			respawn()
+			s.mu.Lock()
+			s.retired++
+			s.mu.Unlock()
+			if done < j.Hi {
+				s.push(true, &jobSpec{Kind: j.Kind, Base: j.Base, Fam: j.Fam, Lo: done, Hi: j.Hi, Alpha: j.Alpha, Thor: j.Thor})
+			}
+			s.finished()
+			continue
+		}
 		if d != nil {
 			respawn()
 			if culprit < done {
@@ -414,34 +433,20 @@ func (s *state) workerLoop(bases []base, blocks []bbase, wg *sync.WaitGroup) {
 				continue
 			}
 			c, kind, dohash := genCase(j, culprit, bases, blocks)
-			// confirm in the fresh worker: the case alone must kill it again
-			var single *batchResult
-			d2, _, _ := w.run(rawJob(kind, c, dohash), func(lo, hi int, r *batchResult) { single = r })
-			if d2 != nil {
-				respawn()
-				key, what := deathKey(d2, kind)
-				s.mu.Lock()
-				s.deathN++
-				s.evals++
-				s.classes["worker-died:"+key]++
-				s.shapes[fam+"|worker-died:"+key]++
-				fs := s.perFam[fam]
-				if fs == nil {
-					fs = &famStat{}
-					s.perFam[fam] = fs
-				}
-				fs.Evals++
-				s.deaths[key] = append(s.deaths[key], deathCase{Hex: hex.EncodeToString(c), Kind: kind, DoHash: dohash, What: what, Fam: fam})
-				s.mu.Unlock()
-			} else {
-				s.mu.Lock()
-				s.unconf++
-				s.mu.Unlock()
-				fmt.Fprintf(os.Stderr, "unconfirmed worker death on %x (%s): %s\n", c, d.status, firstLines(d.stderr, 3))
-				if single != nil {
-					s.merge(fam, single)
-				}
+			key, what := deathKey(d, kind)
+			s.mu.Lock()
+			s.deathN++
+			s.evals++
+			s.classes["worker-died:"+key]++
+			s.shapes[fam+"|worker-died:"+key]++
+			fs := s.perFam[fam]
+			if fs == nil {
+				fs = &famStat{}
+				s.perFam[fam] = fs
 			}
+			fs.Evals++
+			s.deaths[key] = append(s.deaths[key], deathCase{Hex: hex.EncodeToString(c), Kind: kind, DoHash: dohash, What: what, Fam: fam})
+			s.mu.Unlock()
 			var nj []*jobSpec
 			if culprit > done {
 				nj = append(nj, &jobSpec{Kind: j.Kind, Base: j.Base, Fam: j.Fam, Lo: done, Hi: culprit, Alpha: j.Alpha, Thor: j.Thor})
@@ -699,8 +704,32 @@ func main() {
 			return !l[i].DoHash && l[j].DoHash
 		})
 		deathCounts[k] = len(l)
-		r.Report(k, fmt.Sprintf("%s [%d cases; smallest: %d bytes: %s]", l[0].What, len(l), len(l[0].Hex)/2, l[0].Hex),
-			map[string]interface{}{"kind": l[0].Kind, "hex": l[0].Hex, "dohash": l[0].DoHash})
+		// the reported example is the smallest case that kills a fresh worker twice in a row
+		// when run alone (a death that depends on what the worker had allocated before is
+		// not used as the example)
+		reported := false
+		for i := 0; i < len(l) && i < 8 && !reported; i++ {
+			c, _ := hex.DecodeString(l[i].Hex)
+			ok := true
+			for rep := 0; rep < 2 && ok; rep++ {
+				w := spawn()
+				d, _, _ := w.run(rawJob(l[i].Kind, c, l[i].DoHash), func(lo, hi int, r *batchResult) {})
+				if d == nil {
+					w.stop()
+					ok = false
+				} else if k2, _ := deathKey(d, l[i].Kind); k2 != k {
+					ok = false
+				}
+			}
+			if ok {
+				reported = true
+				r.Report(k, fmt.Sprintf("%s [%d cases; smallest: %d bytes: %s]", l[i].What, len(l), len(l[i].Hex)/2, l[i].Hex),
+					map[string]interface{}{"kind": l[i].Kind, "hex": l[i].Hex, "dohash": l[i].DoHash})
+			}
+		}
+		if !reported {
+			r.Unrepro = append(r.Unrepro, fmt.Sprintf("%s: %d worker deaths, none of the 8 smallest repeats in a fresh worker", k, len(l)))
+		}
 	}
 	vc := map[string]int{}
 	for k, v := range s.viol {
@@ -710,28 +739,25 @@ func main() {
 	for k, v := range s.perFam {
 		pf[k] = map[string]int{"evaluated": v.Evals, "skipped_identical_to_base": v.Skipped}
 	}
-	if s.unconf > 0 {
-		r.Unrepro = append(r.Unrepro, fmt.Sprintf("%d worker deaths did not repeat when the case was run alone in a fresh worker (see stderr log)", s.unconf))
-	}
 	r.Finish(map[string]interface{}{
-		"evaluations":                 s.evals,
-		"distinct_nontrivial":         len(s.shapes),
-		"rule":                        "a case is non-trivial when at least one of reference / gocoin decoded a complete object from it; distinct = number of distinct (family, reference outcome, gocoin outcome, decoded shape = inputs/outputs/witness or txs/witness/hash-mode) tuples observed; worker deaths count as their own outcome",
-		"samples":                     s.samples.L,
-		"per_family":                  pf,
-		"outcome_classes":             s.classes,
-		"distinct_outcomes":           len(s.classes),
-		"violation_case_count":        vc,
-		"worker_deaths":               deathCounts,
-		"worker_deaths_total":         s.deathN,
-		"worker_deaths_unconfirmed":   s.unconf,
-		"worker_processes_started":    s.spawns,
-		"tx_bases":                    len(bases),
-		"block_bases":                 len(blocks),
-		"jobs":                        totalJobs,
-		"short_string_max_len":        shortMax,
-		"reference_vectors_validated": nvec,
-		"alloc_bound":                 "TotalAlloc delta of the decode <= 64*len + 64 KiB",
+		"evaluations":                            s.evals,
+		"distinct_nontrivial":                    len(s.shapes),
+		"rule":                                   "a case is non-trivial when at least one of reference / gocoin decoded a complete object from it; distinct = number of distinct (family, reference outcome, gocoin outcome, decoded shape = inputs/outputs/witness or txs/witness/hash-mode) tuples observed; worker deaths count as their own outcome",
+		"samples":                                s.samples.L,
+		"per_family":                             pf,
+		"outcome_classes":                        s.classes,
+		"distinct_outcomes":                      len(s.classes),
+		"violation_case_count":                   vc,
+		"worker_deaths":                          deathCounts,
+		"worker_deaths_total":                    s.deathN,
+		"worker_processes_started":               s.spawns,
+		"workers_retired_after_large_allocation": s.retired,
+		"tx_bases":                               len(bases),
+		"block_bases":                            len(blocks),
+		"jobs":                                   totalJobs,
+		"short_string_max_len":                   shortMax,
+		"reference_vectors_validated":            nvec,
+		"alloc_bound":                            "TotalAlloc delta of the decode <= 64*len + 64 KiB",
 		"max_alloc_fraction_of_bound_on_accepted_decodes": s.maxFrac,
 		"max_alloc_fraction_case":                         s.maxFracHx,
 		"ulimit_v_kb":                                     vlimitKB,
